@@ -1,7 +1,10 @@
 import DictIO.Props.C13api
 import DictIO.Props.C08nat
-import DictIO.Props.C06
+import DictIO.Props.C06fold
+import DictIO.Props.C01dump
 
+set_option profiler true
+set_option profiler.threshold 1000
 namespace DictIO
 namespace C08api
 open DictIO
@@ -518,6 +521,315 @@ theorem probe_plain (ev : Str → EvalResult) {w : World} {p : Comps} (o : ReadO
     rw [hxj] at h
     exact read_out_noincl hfile h rfl
 
+/-! ### `_clean` keeps what the renaming lemma `clean_ren` needs -/
+
+theorem cleanStep_nil {α} [BEq α] (sel : Key → Bool) (lvl : Entries) : C06.cleanStep sel lvl ([] : Tbl α) = (lvl, []) := by
+  rw [C08.cleanStep_eq]
+  suffices H : ∀ (cand : List Key) (seen : List α), cand.foldl C08.cstep (lvl, ([] : Tbl α), seen) = (lvl, [], seen) by
+    rw [H]
+  intro cand
+  induction cand with
+  | nil => intro seen; rfl
+  | cons k cand ih =>
+    intro seen
+    rw [List.foldl_cons]
+    have : C08.cstep (lvl, ([] : Tbl α), seen) k = (lvl, [], seen) := by
+      cases k with
+      | int z => rfl
+      | str x =>
+        simp only [C08.cstep]
+        split
+        · rfl
+        · rfl
+    rw [this, ih]
+
+theorem cleanLevel_incl_nil (s : SD) (lvl : Entries) (h : s.incl = []) : (cleanLevel s lvl).1.incl = [] := by
+  rw [C08.cleanLevel_eq]
+  simp only [h, cleanStep_nil]
+
+theorem cleanRec_incl_nil : ∀ (fuel : Nat) (s : SD) (lvl : Entries), s.incl = [] → (cleanRec fuel s lvl).1.incl = []
+  | 0, _, _, h => h
+  | fuel + 1, s, lvl, h => by
+    rw [C06fold.cleanRec_succ]
+    have h1 := cleanLevel_incl_nil s lvl h
+    generalize (cleanLevel s lvl).2 = lvl1
+    generalize (cleanLevel s lvl).1 = s1 at h1
+    suffices H : ∀ (l : Entries) (acc : SD × Entries), acc.1.incl = [] → (l.foldl (C06fold.cleanF fuel) acc).1.incl = [] from
+      H lvl1 (s1, lvl1) h1
+    intro l
+    induction l with
+    | nil => intro acc h; exact h
+    | cons e l ih =>
+      intro acc hacc
+      rw [List.foldl_cons]
+      apply ih
+      obtain ⟨k, v⟩ := e
+      cases v with
+      | leaf x => exact hacc
+      | list xs => exact hacc
+      | dict sub => exact cleanRec_incl_nil fuel acc.1 sub hacc
+
+theorem clean_incl_nil (s : SD) (h : s.incl = []) : s.clean.incl = [] := by
+  show (cleanRec (depthV (.dict s.data) + 1) s s.data).1.incl = []
+  exact cleanRec_incl_nil (depthV (.dict s.data) + 1) s s.data h
+
+theorem phWF_delKey {k : Key} {d : Entries} (h : C08.PhWFEs d) : C08.PhWFEs (delKey k d) := by
+  rw [C08.phWFEs_iff] at h ⊢
+  exact fun e he => h e ((C07.delKey_sublist k d).subset he)
+
+/-- `_clean` keeps the keys of every dict level admissible (it deletes entries, nothing else) -/
+theorem phWF_cleanRec : ∀ (fuel : Nat) (s : SD) (lvl : Entries), C08.PhWFEs lvl → C08.PhWFEs (cleanRec fuel s lvl).2
+  | 0, _, _, h => h
+  | fuel + 1, s, lvl, h => by
+    rw [C06fold.cleanRec_succ]
+    have h1 : C08.PhWFEs (cleanLevel s lvl).2 :=
+      C06.cleanLevel_inv C08.PhWFEs (fun k d _ hd => phWF_delKey hd) s lvl h
+    generalize (cleanLevel s lvl).2 = lvl1 at h1
+    generalize (cleanLevel s lvl).1 = s1
+    suffices H : ∀ (l : Entries) (acc : SD × Entries), (∀ e ∈ l, e ∈ lvl1) → C08.PhWFEs acc.2 →
+        C08.PhWFEs (l.foldl (C06fold.cleanF fuel) acc).2 from H lvl1 (s1, lvl1) (fun _ h => h) h1
+    intro l
+    induction l with
+    | nil => intro acc _ h; exact h
+    | cons e l ih =>
+      intro acc hsub hacc
+      rw [List.foldl_cons]
+      apply ih _ (fun e' he' => hsub e' (List.mem_cons_of_mem _ he'))
+      obtain ⟨k, v⟩ := e
+      have hmem := C08.phWFEs_iff.mp h1 _ (hsub _ List.mem_cons_self)
+      cases v with
+      | leaf x => exact hacc
+      | list xs => exact hacc
+      | dict sub =>
+        have hsubw : C08.PhWFEs sub := by simpa only [C08.PhWFV] using hmem.2
+        exact C08.phWFEs_setKey hacc hmem.1 (by simpa only [C08.PhWFV] using phWF_cleanRec fuel acc.1 sub hsubw)
+
+theorem phWF_clean (s : SD) (h : C08.PhWFEs s.data) : C08.PhWFEs s.clean.data := by
+  rw [C06fold.clean_data_eq]
+  exact phWF_cleanRec (depthV (.dict s.data) + 1) s s.data h
+
+/-! ### `_merge_includes` on a dict without include entries is `_clean` twice -/
+
+theorem merge_empty (sd : SD) : sd.merge (.sd {}) = sd.clean := by
+  have h : ({ sd with data := mergeD true sd.exprs sd.data (Arg.sd {}).data } : SD).postMerge (.sd {}) = sd := by
+    cases sd; simp [SD.postMerge, Arg.data, C07.mergeD_nil, C01.tbl_merge_nil]
+  unfold SD.merge
+  rw [h]
+
+theorem merge_self (sd : SD) (hn : NodupKeysV (.dict sd.data)) : sd.merge (.sd sd) = sd.clean := by
+  have h : ({ sd with data := mergeD true sd.exprs sd.data (Arg.sd sd).data } : SD).postMerge (.sd sd) = sd := by
+    cases sd
+    simp only [SD.postMerge, Arg.data, C01.tbl_merge_self]
+    rw [C01.mergeD_self_top _ _ hn]
+  unfold SD.merge
+  rw [h]
+
+theorem selfMerge_eq (sd : SD) (hn : NodupKeysV (.dict sd.data)) : selfMerge sd = sd.clean.clean := by
+  unfold selfMerge
+  simp only [merge_empty]
+  exact merge_self _ (C06fold.clean_strip sd hn).1
+
+/-! ### commented documents -/
+
+/-- the hypotheses of `C08_commented_canon_eq` on a text: it is the admissible layout `spreadC (ctoksItems items) gaps tail`
+    of the well-formed commented document `items` (line and block comments at statement boundaries; no include
+    directives, no `$`), at most one million quoted strings and one million block comments, no documentation key -/
+structure CommentedDoc (items : List CItem) (gaps : List Str) (tail : Str) : Prop where
+  wf : CSrcWFItems 1 items = true
+  gapsOK : GapsOKC (ctoksItems items) gaps tail = true
+  tailWs : items = [] → tail.all isWs = true
+  count : C02.countQuotedEs (plainItems items) ≤ Gen.counterLimit + 1
+  docKeys : C02.DocKeysAbsent (plainItems items)
+  blocks : C08.nBlockI items ≤ 1000000
+
+/-- the unclean meaning: what `denC` cleans -/
+def rawC (c : Counter) (items : List CItem) : SD :=
+  { data := denPEs (labelCItems { counter := c } items).2 [],
+    lineC := (labelCItems { counter := c } items).1.lineC,
+    blockC := (labelCItems { counter := c } items).1.blockC }
+
+theorem denC_raw (c : Counter) (items : List CItem) : denC c items = (rawC c items).clean := rfl
+
+theorem rawC_nodup (c : Counter) (items : List CItem) : NodupKeysV (.dict (rawC c items).data) :=
+  C12.denP_nodup _ [] C07.nodupV_nil
+
+theorem denC_nodup (c : Counter) (items : List CItem) : NodupKeysV (.dict (denC c items).data) :=
+  (C06fold.clean_strip _ (rawC_nodup c items)).1
+
+theorem denC_exprs (c : Counter) (items : List CItem) : (denC c items).exprs = [] :=
+  (C06fold.clean_strip _ (rawC_nodup c items)).2.2
+
+theorem denC_incl (c : Counter) (items : List CItem) : (denC c items).incl = [] :=
+  clean_incl_nil _ rfl
+
+theorem denC_phWF {items : List CItem} {c : Counter} (hwf : CSrcWFItems 1 items = true) (hc : V c)
+    (hb : C08.nBlockI items ≤ 1000000) : C08.PhWFEs (denC c items).data := by
+  rw [denC_raw]
+  have h : C08.PhWFEs (rawC c items).data :=
+    C08.phWF_labelI items 1 { counter := c } [] hwf hc (by simpa using hb) (by simp only [C08.PhWFEs])
+  exact phWF_clean _ h
+
+/-- `parse_file` (comments on) on such a file, from any counter value that can occur -/
+theorem parseFile_commented {fs : FS} {p : Comps} {items : List CItem} {gaps : List Str} {tail : Str}
+    (hdoc : CommentedDoc items gaps tail)
+    (hfile : fs.get (resolveSpelled p) = some (.native (spreadC (ctoksItems items) gaps tail)))
+    {c : Counter} (hc : V c) :
+    ∃ c', parseFile fs true c p =
+      if isXmlPath p || isJsonPath p then .error .unsupported else .ok (denC c items, c') := by
+  have h := C12.C12_read_commented (pathStr p.dropLast) c hdoc.wf hdoc.gapsOK hdoc.tailWs hc hdoc.count hdoc.docKeys
+  refine ⟨C08.counterAfter c items, ?_⟩
+  unfold parseFile
+  cases hx : isXmlPath p with
+  | true => rfl
+  | false =>
+    cases hj : isJsonPath p with
+    | true => simp [hfile]
+    | false =>
+      simp only [hfile, h, Bool.false_eq_true, if_false, Bool.or_self]
+      have e : ∀ (D : SD) (F : Nat × InclEntry → Nat × InclEntry), D.incl = [] → ({ D with incl := D.incl.map F } : SD) = D := by
+        intro D F hD; cases D; simp_all
+      rw [e _ _ (denC_incl c items)]
+      simp only [C08.counterAfter]
+
+/-! ### `_remove_include_keys` commutes with the renaming -/
+
+/-- the test of `removeIncludeKeys` on one key -/
+def keepKey (k : Key) : Bool :=
+  match k with
+  | .str s => !(removeIncludeKeys.containsPhDigits kwIncl s)
+  | _ => true
+
+theorem removeIncludeKeys_eq (es : Entries) : removeIncludeKeys es = es.filter fun e => keepKey e.1 := by
+  unfold removeIncludeKeys keepKey
+  rfl
+
+theorem keepKey_noInfix {s : Str} (h : isInfix kwIncl s = false) : keepKey (.str s) = true := by
+  simp only [isInfix, List.any_eq_false] at h
+  simp only [keepKey, Bool.not_eq_true', removeIncludeKeys.containsPhDigits, List.any_eq_false, Bool.and_eq_true, not_and]
+  intro t ht hp
+  exact absurd hp (h t ht)
+
+theorem noIncl_of_notin {s : Str} (h : 'U' ∉ s) : isInfix kwIncl s = false := by
+  cases hc : isInfix kwIncl s with
+  | false => rfl
+  | true =>
+    have := C02.Front.isInfix_trans (p := ['U']) (by decide) hc
+    rw [C02.isInfix_head_notin 'U' [] s h] at this; cases this
+
+theorem keepKey_linePh (i : Nat) : keepKey (.str (linePh i)) = true :=
+  keepKey_noInfix (noIncl_of_notin (by
+    simp only [linePh, List.mem_append, not_or]; exact ⟨by decide, C08.padSix_not (by decide) i⟩))
+
+theorem keepKey_blockPh (i : Nat) : keepKey (.str (blockPh i)) = true :=
+  keepKey_noInfix (noIncl_of_notin (by
+    simp only [blockPh, List.mem_append, not_or]; exact ⟨by decide, C08.padSix_not (by decide) i⟩))
+
+theorem keepKey_ren (f g : Nat → Nat) {k : Key} (hk : C08.KeyOK k) : keepKey (C08.renKey f g k) = keepKey k := by
+  rcases hk with ⟨i, hi, rfl⟩ | ⟨i, hi, rfl⟩ | hk
+  · simp only [C08.renKey, C08.renWord_linePh f g hi, keepKey_linePh]
+  · simp only [C08.renKey, C08.renWord_blockPh f g hi, keepKey_blockPh]
+  · rw [C08.renKey_noPh f g hk]
+
+theorem removeIncludeKeys_ren (f g : Nat → Nat) : ∀ (es : Entries), (∀ k ∈ keys es, C08.KeyOK k) →
+    removeIncludeKeys (C08.renEs f g es) = C08.renEs f g (removeIncludeKeys es)
+  | [], _ => by simp only [C08.renEs_nil, removeIncludeKeys_eq, List.filter_nil]
+  | (k, v) :: es, h => by
+    have ih := removeIncludeKeys_ren f g es (fun x hx => h x (by simp only [keys, List.map_cons, List.mem_cons]; exact Or.inr hx))
+    have hk : C08.KeyOK k := h k (by simp [keys])
+    rw [removeIncludeKeys_eq] at ih ⊢
+    rw [removeIncludeKeys_eq] at ih ⊢
+    rw [C08.renEs_cons, List.filter_cons, List.filter_cons]
+    simp only [keepKey_ren f g hk]
+    cases keepKey k with
+    | true => simp only [if_true, C08.renEs_cons, ih]
+    | false => simp only [Bool.false_eq_true, if_false, ih]
+
+/-! ### the probe of a commented file -/
+
+/-- the options `C08_history_commented` covers: comments kept, no reordering (`order=True` sorts the comment tables by
+    id and is *not* canonical-form invariant: `C08.C08_order_not_canon_invariant`, `order_refutes` below), no scope -/
+structure CommentedOpts (o : ReadOpts) : Prop where
+  comments : o.comments = true
+  order : o.order = false
+  scope : o.scope = []
+
+/-- replace the SDict a call returned by its canonical form (`C08.canonSD`: placeholder ids ↦ rank of first appearance) -/
+def canonOut : ApiOut → ApiOut
+  | .data s => .data (C08.canonSD s)
+  | o => o
+
+/-- everything `read` does after `parse_file` to the parsed commented document, for the options covered -/
+def afterParse (o : ReadOpts) (sd : SD) : SD :=
+  if o.includes then sd.clean.clean else { sd with data := removeIncludeKeys sd.data }
+
+theorem postRead_commented {ev : Str → EvalResult} {o : ReadOpts} (ho : CommentedOpts o) (sd : SD) (he : sd.exprs = [])
+    (hn : NodupKeysV (.dict sd.data)) : postRead ev o sd = .ok (some (afterParse o sd)) := by
+  unfold postRead afterParse
+  cases hi : o.includes with
+  | true =>
+    have h1 := C06fold.clean_strip sd hn
+    have h2 := C06fold.clean_strip sd.clean h1.1
+    have hex : sd.clean.clean.exprs = [] := by rw [h2.2.2, h1.2.2, he]
+    simp [selfMerge_eq sd hn, C01.evalExpressions_noexpr ev _ hex, Except.bind, ho.scope, ho.order]
+  | false =>
+    simp [C01.evalExpressions_noexpr ev _ he, Except.bind, ho.scope, ho.order]
+
+theorem afterParse_ren {f : Nat → Nat} (hf : C08.RenOK f) (o : ReadOpts) (sd : SD) (hw : C08.PhWFEs sd.data) :
+    afterParse o (C08.renSD f id sd) = C08.renSD f id (afterParse o sd) := by
+  unfold afterParse
+  cases o.includes with
+  | true =>
+    simp only [if_true]
+    rw [C08.clean_ren hf C08.renOK_id sd hw, C08.clean_ren hf C08.renOK_id sd.clean (phWF_clean sd hw)]
+  | false =>
+    simp only [Bool.false_eq_true, if_false]
+    exact C08.sd_ext (removeIncludeKeys_ren f id sd.data (C08.phWFEs_keys hw)) rfl rfl rfl rfl
+
+/-- one probe of a commented file, in any world that holds the file and a counter value that can occur -/
+theorem probe_commented (ev : Str → EvalResult) {w : World} {p : Comps} {o : ReadOpts} (ho : CommentedOpts o)
+    {items : List CItem} {gaps : List Str} {tail : Str} (hdoc : CommentedDoc items gaps tail)
+    (hfile : w.fs.get (resolveSpelled p) = some (.native (spreadC (ctoksItems items) gaps tail))) (hc : V w.c) :
+    (apiStep ev w (.read p o)).2 =
+      if isXmlPath p || isJsonPath p then .gaveUp .unsupported else .data (afterParse o (denC w.c items)) := by
+  obtain ⟨c', h0⟩ := parseFile_commented hdoc hfile hc
+  have h : parseFile w.fs o.comments w.c p =
+      if isXmlPath p || isJsonPath p then .error .unsupported else .ok (denC w.c items, c') := by
+    rw [ho.comments]; exact h0
+  cases hxj : (isXmlPath p || isJsonPath p) with
+  | true =>
+    rw [hxj] at h
+    simp only [if_true]
+    exact read_out_error hfile h
+  | false =>
+    rw [hxj] at h
+    simp only [Bool.false_eq_true, if_false]
+    rw [read_out_noincl hfile h (denC_incl _ _), postRead_commented ho _ (denC_exprs _ _) (denC_nodup _ _)]
+    rfl
+
+/-- two probes of the same commented file from two counter values: equal canonical forms -/
+theorem probe_commented_canon (ev : Str → EvalResult) {w₁ w₂ : World} {p : Comps} {o : ReadOpts} (ho : CommentedOpts o)
+    {items : List CItem} {gaps : List Str} {tail : Str} (hdoc : CommentedDoc items gaps tail)
+    (hf₁ : w₁.fs.get (resolveSpelled p) = some (.native (spreadC (ctoksItems items) gaps tail))) (hc₁ : V w₁.c)
+    (hf₂ : w₂.fs.get (resolveSpelled p) = some (.native (spreadC (ctoksItems items) gaps tail))) (hc₂ : V w₂.c) :
+    canonOut (apiStep ev w₂ (.read p o)).2 = canonOut (apiStep ev w₁ (.read p o)).2 := by
+  have h1 := probe_commented ev ho hdoc hf₁ hc₁
+  have h2 := probe_commented ev ho hdoc hf₂ hc₂
+  cases hxj : (isXmlPath p || isJsonPath p) with
+  | true =>
+    rw [hxj] at h1 h2
+    simp only [if_true] at h1 h2
+    rw [h1, h2]
+  | false =>
+    rw [hxj] at h1 h2
+    simp only [Bool.false_eq_true, if_false] at h1 h2
+    rw [h1, h2]
+    have e1 : denC w₂.c items = C08.renSD (C08.shift w₁.c w₂.c) id (denC w₁.c items) :=
+      (C08.denC_natural hdoc.wf hc₁ hc₂ hdoc.blocks).2.2
+    have e2 := afterParse_ren (C08.shift_ok w₁.c w₂.c) o (denC w₁.c items) (denC_phWF hdoc.wf hc₁ hdoc.blocks)
+    have e3 := C08.canonSD_ren' (C08.shift_ok w₁.c w₂.c) C08.renOK_id (afterParse o (denC w₁.c items))
+    show ApiOut.data (C08.canonSD _) = ApiOut.data (C08.canonSD _)
+    rw [e1, e2, e3]
+
 /-! ## property theorems -/
 
 /-- **C08 on histories, writes included.**  Take any world whose counter holds a value that can occur, any history of
@@ -621,6 +933,99 @@ theorem C08_write_unsupported_history (ev : Str → EvalResult) (ops : List ApiO
     apiRun ev w (ops ++ [.write a target mode order]) =
       ((apiRun ev w ops).1, (apiRun ev w ops).2 ++ [.gaveUp .unsupported]) := by
   simp only [apiRun_snoc, write_step ev _ a target mode order (.inl hm), ht]
+
+/-- **C08 on histories, commented documents.**  Any world with a counter value that can occur, any history of API calls
+    none of which targets the probed file (reads, loads and resets never do), a probe `read p o` with comments kept,
+    `order=False`, no scope (`includes` on or off) of a file that is an admissible layout of a well-formed commented
+    document: the probe after the history and the probe in the fresh world return SDicts with the same canonical form
+    (`C08.canonSD`: the placeholder ids, which do depend on the counter, replaced by their rank of first appearance).
+    The list equation says in addition that the history's own outputs are what they were. -/
+theorem C08_history_commented (ev : Str → EvalResult) (ops : List ApiOp) (w : World) (p : Comps) (o : ReadOpts)
+    (ho : CommentedOpts o) {items : List CItem} {gaps : List Str} {tail : Str} (hdoc : CommentedDoc items gaps tail)
+    (hfile : w.fs.get (resolveSpelled p) = some (.native (spreadC (ctoksItems items) gaps tail)))
+    (hc : C13.ValidCounter Gen.counterLimit w.c)
+    (hops : ∀ op ∈ ops, op.target ≠ some (resolveSpelled p)) :
+    (apiRun ev w (ops ++ [.read p o])).2.map canonOut =
+      (apiRun ev w ops).2.map canonOut ++ (apiRun ev { fs := w.fs, c := none } [.read p o]).2.map canonOut := by
+  have h1 : canonOut (apiStep ev (apiRun ev w ops).1 (.read p o)).2 =
+      canonOut (apiStep ev { fs := w.fs, c := none } (.read p o)).2 :=
+    probe_commented_canon ev (w₁ := { fs := w.fs, c := none }) ho hdoc hfile V_none
+      (by rw [C13api.run_frame ev _ ops w hops]; exact hfile) (run_valid_counter ev ops w hc)
+  rw [apiRun_snoc, List.map_append, List.map_singleton, h1, C13api.apiRun_cons]
+  rfl
+
+/-- the same for histories of reads, loads and resets: no side condition on the history -/
+theorem C08_history_commented_reads (ev : Str → EvalResult) (ops : List ApiOp) (w : World) (p : Comps) (o : ReadOpts)
+    (ho : CommentedOpts o) {items : List CItem} {gaps : List Str} {tail : Str} (hdoc : CommentedDoc items gaps tail)
+    (hfile : w.fs.get (resolveSpelled p) = some (.native (spreadC (ctoksItems items) gaps tail)))
+    (hc : C13.ValidCounter Gen.counterLimit w.c)
+    (hops : ∀ op ∈ ops, C13api.IsReadOp op) :
+    (apiRun ev w (ops ++ [.read p o])).2.map canonOut =
+      (apiRun ev w ops).2.map canonOut ++ (apiRun ev { fs := w.fs, c := none } [.read p o]).2.map canonOut :=
+  C08_history_commented ev ops w p o ho hdoc hfile hc
+    (fun op hop => by rw [target_of_readOp (hops op hop)]; exact nofun)
+
+/-! ## non-vacuity -/
+
+/-! ### a world with two files, the counter one step before the wrap-around -/
+
+def exA : Comps := ["w".toList, "plain".toList]
+def exB : Comps := ["w".toList, "doc".toList]
+def exOut : Comps := ["w".toList, "out".toList]
+
+def exAText : Str := "\tk  'a; {b}' ;\r\nl (\t\"it's\"\u00a01 );\r\n\r\nsub\n{\n  p\t\t'x y';\n}\r\n".toList
+def exBText : Str :=
+  (" // first\n  /* hdr C++ x */ a 1 ; // tail 'q' ; { $x\n  n { // nested\n  p 'x y' ; /*blk\n two*/ // nested\n" ++
+   "  } l ( 1 \"it's\" ) ; // first\n").toList
+
+/-- `plain`: the loose layout of `C02.exSrc` (three quoted strings, a list, a nested dict; tabs, CR LF, a no-break
+    space); `doc`: the commented document `C12.exDoc` (five line comments, two block comments) -/
+def exWorld : World := { fs := [(exA, .native exAText), (exB, .native exBText)], c := some 999998 }
+
+/-- a write to a third file, a read of `plain` (ids 999999, 0, 1: across the wrap-around), a read of `doc` (ids 2 … 8) -/
+def exOps : List ApiOp :=
+  [.write (.plain [(.str "k".toList, .leaf (.int 5))]) exOut ['w'] false, .read exA {}, .read exB {}]
+
+theorem exPlainDoc : PlainDoc C02.exSrc C02.exSGapsLoose ['\r', '\n'] :=
+  ⟨C02.exSrc_wf, C02.exSGapsLoose_ok, by decide, by rw [C02.exSrc_count]; decide, C02.exSrc_docKeys⟩
+
+theorem exCommentedDoc : CommentedDoc C12.exDoc C12.exGaps ['\n'] :=
+  ⟨C12.exDoc_wf, C12.exGaps_ok, fun h => (by cases h), by decide +kernel, by decide +kernel, C08.exDoc_blocks⟩
+
+theorem exA_file : exWorld.fs.get (resolveSpelled exA) =
+    some (.native (spreadS (srcToksEs C02.exSrc) C02.exSGapsLoose ['\r', '\n'])) := by
+  rw [C02.exSLoose_text]; exact (rfl : _ = some (FileBody.native exAText))
+
+theorem exB_file : exWorld.fs.get (resolveSpelled exB) =
+    some (.native (spreadC (ctoksItems C12.exDoc) C12.exGaps ['\n'])) := by
+  rw [C12.exDoc_text]; exact (rfl : _ = some (FileBody.native exBText))
+
+theorem exOps_frame_A : ∀ op ∈ exOps, op.target ≠ some (resolveSpelled exA) := by decide
+theorem exOps_frame_B : ∀ op ∈ exOps, op.target ≠ some (resolveSpelled exB) := by decide
+
+/-- the data part of an output, for evaluation (`ApiOut` has no decidable equality) -/
+def outData : ApiOut → Option Entries
+  | .data s => some s.data
+  | _ => none
+
+def outLineC : ApiOut → Tbl Str
+  | .data s => s.lineC
+  | _ => []
+
+/-- the history completes: `None`, data, data; and it ends with the counter at 8, past the wrap-around -/
+example : (apiRun evalInt exWorld exOps).2.map (fun o => (outData o).isSome) = [false, true, true] ∧
+    (apiRun evalInt exWorld exOps).1.c = some 8 := by decide +kernel
+
+/-- `C08_history_writes` instantiated: the probe of `plain` after the history is the probe in the fresh world -/
+theorem ex_plain_probe (o : ReadOpts) :
+    (apiRun evalInt exWorld (exOps ++ [.read exA o])).2 =
+      (apiRun evalInt exWorld exOps).2 ++ (apiRun evalInt { fs := exWorld.fs, c := none } [.read exA o]).2 :=
+  (C08_history_writes evalInt exOps exWorld exA o exPlainDoc exA_file C08.ex_valid exOps_frame_A).1
+
+/-- … evaluated without the theorem, with default options: the same data `C02.exData` from both worlds -/
+example : ((apiRun evalInt exWorld (exOps ++ [.read exA {}])).2.map outData).getLast? = some (some C02.exData) ∧
+    (apiRun evalInt { fs := exWorld.fs, c := none } [.read exA {}]).2.map outData = [some C02.exData] := by
+  decide +kernel
 
 end C08api
 end DictIO
